@@ -49,7 +49,7 @@ func UpdateList[T any](remoteWrite bool, existingData []T, newData []T, filterPa
 
 	// process update filter (with selectors and elements)
 	if filterPartial != nil {
-		if filterData, err := filterPartial.Data(); err == nil {
+		if filterData, err := filterPartial.Data(); err == nil && len(newData) > 0 {
 			newData, noErrors := copyToSelectedData(remoteWrite, existingData, filterData, &newData[0])
 			if !noErrors {
 				success = false
